@@ -120,6 +120,13 @@ func genC03(env *core.Env, emit func(core.Case)) {
 			}
 		}
 	}
+	// encoders that leave a legacy_session_id in the EncodedClientHelloInner (tolerated: the outer one is
+	// substituted either way), with long inner extensions, under every debugging configuration
+	for rep := 0; rep < env.Pick(40, 400); rep++ {
+		o := gen.PlanOpts{NOuterOpaque: 1 + r.IntN(4), NInnerOpaque: 2 + r.IntN(4), MaxExtLen: 300, Padding: r.IntN(32), SIDLen: sids[r.IntN(3)],
+			RefMask: uint64(r.IntN(16)), MarkerPos: r.IntN(6), InnerName: hostName(r), ALPN: alpnList(r), PublicName: "public.example", InnerSIDLen: []int{1, 8, 32}[r.IntN(3)]}
+		run("inner-sid", o, gen.AllSuites[r.IntN(3)])
+	}
 	// sizes up to the record limit
 	for rep := 0; rep < env.Pick(30, 600); rep++ {
 		o := gen.PlanOpts{NOuterOpaque: 1 + r.IntN(6), NInnerOpaque: 1 + r.IntN(20), MaxExtLen: []int{200, 1000, 2500}[r.IntN(3)], Padding: r.IntN(64), SIDLen: 32,
